@@ -193,7 +193,7 @@ class Out:
         self.out = []
 
     def _remove_last_if_S(self):
-        if self.out and not self.out[-1].strip():
+        if self.out and not self.out[-1].strip(' \t\r\n\f'):
             # remove trailing S
             del self.out[-1]
 
